@@ -52,6 +52,27 @@ pub fn build(rel: Rel, stop: Stop, field: bool) -> Rule<HL> {
   DeserializeEnv::new(HL('$')).deserialize_rule(r).expect("valid rule")
 }
 
+/// the same rule value built from parts (hook H2 constructors): no serializable
+/// representation, no `deserialize_rule` -- an order of magnitude cheaper to execute
+/// symbolically; what is exercised is exactly the matching code
+pub fn build_direct(rel: Rel, stop: Stop, field: bool) -> Rule<HL> {
+  use ast_grep_config::verif_hooks::{relational, StopBy};
+  use ast_grep_core::matcher::KindMatcher;
+  let goal = Rule::Kind(KindMatcher::from_id(K_NUMBER));
+  let stop_by = match stop {
+    Stop::Neighbor => StopBy::Neighbor,
+    Stop::End => StopBy::End,
+    Stop::Rule => StopBy::Rule(Rule::Kind(KindMatcher::from_id(K_COMMENT))),
+  };
+  let f = if field { Some(1u16) } else { None };
+  match rel {
+    Rel::Has => relational::has(goal, stop_by, f),
+    Rel::Inside => relational::inside(goal, stop_by, f),
+    Rel::Follows => relational::follows(goal, stop_by),
+    Rel::Precedes => relational::precedes(goal, stop_by),
+  }
+}
+
 /// reference semantics on the arena (parent vector + labels only)
 pub fn eval(rel: Rel, stop: Stop, field: bool, t: &TreeData, parent: &[u8; MAXN], n: usize, x: usize) -> bool {
   let goal = |i: usize| t.nodes[i].kind == K_NUMBER;
@@ -216,6 +237,8 @@ mod tests {
     for (stop, want) in [(Stop::Neighbor, false), (Stop::End, true), (Stop::Rule, false)] {
       let r = build(Rel::Has, stop, false);
       assert_eq!(r.match_node(g.root()).is_some(), want, "{stop:?}");
+      let r = build_direct(Rel::Has, stop, false);
+      assert_eq!(r.match_node(g.root()).is_some(), want, "{stop:?}");
       assert_eq!(eval(Rel::Has, stop, false, &d, &parent, 4, 0), want);
     }
     let r = build(Rel::Inside, Stop::Rule, false);
@@ -229,6 +252,12 @@ mod proofs {
   use super::*;
 
   fn rel_sem(rel: Rel, stop: Stop, field: bool, nmax: usize) {
+    rel_sem_with(rel, stop, field, nmax, false)
+  }
+  fn rel_sem_direct(rel: Rel, stop: Stop, field: bool, nmax: usize) {
+    rel_sem_with(rel, stop, field, nmax, true)
+  }
+  fn rel_sem_with(rel: Rel, stop: Stop, field: bool, nmax: usize, direct: bool) {
     let mut t = any_tree(nmax, 1);
     let mut i = 0;
     while i < MAXN {
@@ -259,7 +288,7 @@ mod proofs {
     let x: usize = kani::any();
     kani::assume(x < t.n);
     let g = mk_grep(&SRC_X[..t.total], t.data.clone());
-    let rule = build(rel, stop, field);
+    let rule = if direct { build_direct(rel, stop, field) } else { build(rel, stop, field) };
     let got = rule.match_node(node_at(&g, x)).is_some();
     let want = eval(rel, stop, field, &t.data, &t.parent, t.n, x);
     kani::cover!(want && t.n == nmax);
@@ -279,6 +308,38 @@ mod proofs {
       }
     };
   }
+  macro_rules! rel_direct {
+    ($name:ident, $rel:expr, $stop:expr, $field:expr, $n:expr) => {
+      #[kani::proof]
+      #[kani::unwind(10)]
+      #[kani::stub(regex::Regex::new, crate::stub_regex_new)]
+      fn $name() {
+        rel_sem_direct($rel, $stop, $field, $n);
+      }
+    };
+  }
+  rel_direct!(c05d_has_neighbor_n4, Rel::Has, Stop::Neighbor, false, 4);
+  rel_direct!(c05d_has_end_n4, Rel::Has, Stop::End, false, 4);
+  rel_direct!(c05d_has_rule_n4, Rel::Has, Stop::Rule, false, 4);
+  rel_direct!(c05d_inside_neighbor_n4, Rel::Inside, Stop::Neighbor, false, 4);
+  rel_direct!(c05d_inside_end_n4, Rel::Inside, Stop::End, false, 4);
+  rel_direct!(c05d_inside_rule_n4, Rel::Inside, Stop::Rule, false, 4);
+  rel_direct!(c05d_follows_neighbor_n4, Rel::Follows, Stop::Neighbor, false, 4);
+  rel_direct!(c05d_follows_end_n4, Rel::Follows, Stop::End, false, 4);
+  rel_direct!(c05d_follows_rule_n4, Rel::Follows, Stop::Rule, false, 4);
+  rel_direct!(c05d_precedes_neighbor_n4, Rel::Precedes, Stop::Neighbor, false, 4);
+  rel_direct!(c05d_precedes_end_n4, Rel::Precedes, Stop::End, false, 4);
+  rel_direct!(c05d_precedes_rule_n4, Rel::Precedes, Stop::Rule, false, 4);
+  rel_direct!(c05d_has_field_neighbor_n4, Rel::Has, Stop::Neighbor, true, 4);
+  rel_direct!(c05d_has_field_end_n4, Rel::Has, Stop::End, true, 4);
+  rel_direct!(c05d_has_field_rule_n4, Rel::Has, Stop::Rule, true, 4);
+  rel_direct!(c05d_inside_field_neighbor_n4, Rel::Inside, Stop::Neighbor, true, 4);
+  rel_direct!(c05d_inside_field_end_n4, Rel::Inside, Stop::End, true, 4);
+  rel_direct!(c05d_inside_field_rule_n4, Rel::Inside, Stop::Rule, true, 4);
+  rel_direct!(c05d_has_rule_n5, Rel::Has, Stop::Rule, false, 5);
+  rel_direct!(c05d_inside_rule_n5, Rel::Inside, Stop::Rule, false, 5);
+  rel_direct!(c05d_follows_rule_n5, Rel::Follows, Stop::Rule, false, 5);
+  rel_direct!(c05d_precedes_rule_n5, Rel::Precedes, Stop::Rule, false, 5);
   rel_harness!(c05_has_neighbor_n4, Rel::Has, Stop::Neighbor, false, 4);
   rel_harness!(c05_has_end_n4, Rel::Has, Stop::End, false, 4);
   rel_harness!(c05_has_rule_n4, Rel::Has, Stop::Rule, false, 4);
